@@ -128,6 +128,7 @@ return tostring(a):sub(1, 6), pcall(function() return a() end), pcall(function()
 	{"C12", "huge-call-stack-size-with-segmented-stack/600000", `local function f(n) if n == 0 then return 0 end return 1 + f(n - 1) end local ok, v = pcall(f, 100) local ok2, v2 = pcall(f, 1000) local co = coroutine.wrap(function() return f(200) end) return ok, v, ok2, v2, co()`, "true|100|true|1000|200", &lua.Options{CallStackSize: 600000, MinimizeStackMemory: true}},
 	{"C12", "huge-call-stack-size-with-segmented-stack/2097152", `local function f(n) if n == 0 then return 0 end return 1 + f(n - 1) end local ok, v = pcall(f, 100) local ok2, v2 = pcall(f, 1000) local co = coroutine.wrap(function() return f(200) end) return ok, v, ok2, v2, co()`, "true|100|true|1000|200", &lua.Options{CallStackSize: 2097152, MinimizeStackMemory: true}},
 	{"C12", "huge-call-stack-size-with-fixed-stack", `local function f(n) if n == 0 then return 0 end return 1 + f(n - 1) end local ok, v = pcall(f, 100) local ok2, v2 = pcall(f, 1000) local co = coroutine.wrap(function() return f(200) end) return ok, v, ok2, v2, co()`, "true|100|true|1000|200", &lua.Options{CallStackSize: 524288}},
+	{"C15", "unsigned-conversions-between-2^63-and-2^64", `return string.format("%x %X %o %u", 2^63 + 2048, 2^64 - 2048, 2^63, 2^63 + 2048), string.format("%x %u %x %o", -1, -1, 255, 8), string.format("%x %X", 2^53, 2^63 - 1024)`, "8000000000000800 FFFFFFFFFFFFF800 1000000000000000000000 9223372036854777856|ffffffffffffffff 18446744073709551615 ff 10|20000000000000 7FFFFFFFFFFFFC00", nil},
 	// eighth batch
 	{"C19", "read-format-must-be-a-number-or-a-string", `local f = io.open("$F") local a, b, c = pcall(f.read, f, true), pcall(f.read, f, nil), pcall(f.read, f, {}) local d = f:read(2, "*l") f:close() return a, b, c, d`, "false|false|false|01", nil},
 	{"C19", "io.lines-on-a-closed-default-input-raises-at-once", `io.input("$F") io.close(io.input()) local closed = pcall(io.lines) io.input("$F") local open = pcall(io.lines) return closed, open`, "false|true", nil},
